@@ -79,9 +79,13 @@ func (m *Model) PullDemand(ctx context.Context, opts ...resource.ReadOption) <-c
 		defer close(send)
 		for change := range recv {
 			demand := change.Value.(*traits.ElectricDemand)
-			send <- PullDemandChange{
+			select {
+			case <-ctx.Done():
+				return
+			case send <- PullDemandChange{
 				Value:      demand,
 				ChangeTime: change.ChangeTime,
+			}:
 			}
 		}
 	}()
@@ -122,9 +126,13 @@ func (m *Model) PullActiveMode(ctx context.Context, opts ...resource.ReadOption)
 		defer close(send)
 		for change := range recv {
 			activeMode := change.Value.(*traits.ElectricMode)
-			send <- PullActiveModeChange{
+			select {
+			case <-ctx.Done():
+				return
+			case send <- PullActiveModeChange{
 				ActiveMode: activeMode,
 				ChangeTime: change.ChangeTime,
+			}:
 			}
 		}
 	}()
@@ -362,7 +370,11 @@ func (m *Model) PullModes(ctx context.Context, opts ...resource.ReadOption) <-ch
 				NewValue:   newValue,
 				OldValue:   oldValue,
 			}
-			send <- pullChange
+			select {
+			case <-ctx.Done():
+				return
+			case send <- pullChange:
+			}
 		}
 	}()
 
